@@ -11,7 +11,7 @@ export GOFLAGS=-mod=mod GOPROXY=off GOSUMDB=off GOTOOLCHAIN=local; unset GOWORK
 mkdir -p $t/out; cp /verif/known_findings.json $t/out/
 for p in $(seq -f 'C%02g' 1 20); do
   out=$(GCV_REPO=$t/tree GCV_VERIF=$t/out GCV_VARIANT=1 ${GCV_BIN:-/verif/bin/gcv} -p $p 2>&1)
-  echo "$out" | grep -A1 "^VIOLATION" | grep "rule" | cut -c1-300 | sed "s/^/$p: /" | head -${ASTMAX:-8}
+  echo "$out" | grep -A1 "^VIOLATION\|^UNDECIDED" | grep "rule" | cut -c1-300 | sed "s/^/$p: /" | head -${ASTMAX:-8}
   echo "$out" | tail -1 | grep -v " 0 violated" | sed "s/^/   /"
 done
 if [ -n "$KEEP" ]; then echo "kept $t"; else rm -rf $t; fi
